@@ -52,11 +52,122 @@ func init() {
 				NeedCounters: []string{"recv-timeout-exact-beside-waiting-send"}},
 			{Name: "two-senders-one-slot-each-with-the-deadline", Mode: "sched", Bound: b + 1, Reset: kit.ResetGlobals, Body: twoSendersOneSlot},
 			{Name: "best-effort-switched-during-a-send", Mode: "sched", Bound: b + 1, Reset: kit.ResetGlobals, Body: bestEffortSwitched},
+			{Name: "two-receivers-and-a-late-request-each-with-its-own-deadline", Mode: "enum", Reset: kit.ResetGlobals, Body: deadlineOrigins,
+				NeedCounters: []string{"two-receivers-timed-out-each-at-its-own-deadline", "recv-deadline-counts-from-the-recv-call"}},
 			{Name: "fail-no-peers-switched-off-after-the-last-peer-left", Mode: "sched", Bound: b, Reset: kit.ResetGlobals, Body: FailNoPeersOff},
 			{Name: "fail-no-peers", Mode: "enum", Bound: b, Reset: kit.ResetGlobals, Body: failNoPeers,
 				NeedCounters: []string{"nopeers-at-call", "nopeers-when-last-peer-leaves", "one-of-two-peers-leaves", "peers-come-and-go"}},
 		}
 	})
+}
+
+// deadlineOrigins: a receive deadline runs from the call it belongs to - not from an earlier call of
+// another goroutine, not from the Send that went before.  (a) Two goroutines call Recv on one
+// socket, the second half a deadline after the first, and nothing arrives: each gets the timeout
+// error exactly d after ITS call.  (b) REQ / SURVEYOR (socket and context): Send, a pause of half
+// or twice the deadline, then Recv with nothing answered: the timeout comes exactly d after the
+// Recv call.
+func deadlineOrigins() {
+	var ks []*kinds.Kind
+	for _, k := range kinds.All {
+		if k.CanRecv {
+			ks = append(ks, k)
+		}
+	}
+	k := ks[kit.ChooseFree(len(ks))]
+	d := 50 * time.Millisecond
+	x := k.Open("c18o", true, false)
+	x.Quiet()
+	if err := x.S.SetOption(mangos.OptionRecvDeadline, d); err != nil {
+		kit.Failf("setup", "RecvDeadline: %s", kit.ErrName(err))
+	}
+	if k.NeedOut {
+		// (b) the request / survey goes out first, the Recv comes later
+		useCtx := kit.ChooseFree(2) == 1
+		pause := []time.Duration{d / 2, 2 * d}[kit.ChooseFree(2)]
+		recv := x.Recv
+		if useCtx {
+			c, err := x.S.OpenContext()
+			if err != nil {
+				kit.Failf("setup:ctx:"+k.Name, "OpenContext: %s", kit.ErrName(err))
+			}
+			_ = c.SetOption(mangos.OptionRecvDeadline, d)
+			x.Ctx = c
+			recv = func() (string, error) { b, err := c.Recv(); return string(b), err }
+		}
+		x.PrepRecv() // sends the request / survey
+		kit.Quiesce()
+		kit.Sleep(pause)
+		kit.Quiesce()
+		rc := kit.Start("Recv", func() (interface{}, error) { return recv() })
+		kit.Quiesce()
+		if k.Name == "surveyor" && pause >= time.Hour {
+			return
+		}
+		if rc.Done() {
+			kit.Failf("recv-deadline-early:"+k.Name, "%s (context: %v): Send, %v later Recv with a %v deadline and no answer: Recv returned %s at once - the deadline counts from the Recv call", k.Name, useCtx, pause, d, kit.ErrName(rc.Err))
+		}
+		kit.Sleep(d - time.Nanosecond)
+		kit.Quiesce()
+		if rc.Done() {
+			kit.Failf("recv-deadline-early:"+k.Name, "%s (context: %v): Recv called %v after the Send returned %s before its %v deadline had elapsed", k.Name, useCtx, pause, kit.ErrName(rc.Err), d)
+		}
+		kit.Sleep(time.Nanosecond)
+		kit.Quiesce()
+		if !rc.Done() || rc.Err != mangos.ErrRecvTimeout {
+			kit.Failf("recv-deadline-late:"+k.Name, "%s (context: %v): Recv with a %v deadline: done=%v %s at the deadline", k.Name, useCtx, d, rc.Done(), kit.ErrName(rc.Err))
+		}
+		kit.Count("recv-deadline-counts-from-the-recv-call")
+		kit.Observe("%s b ctx=%v %v", k.Name, useCtx, pause)
+		kit.Must("Close", func() { _ = x.S.Close() })
+		return
+	}
+	// (a) two receivers
+	x.PrepRecv()
+	r1 := kit.Start("Recv-1", func() (interface{}, error) { return x.Recv() })
+	kit.Quiesce()
+	kit.Sleep(d / 2)
+	kit.Quiesce()
+	r2 := kit.Start("Recv-2", func() (interface{}, error) { return x.Recv() })
+	kit.Quiesce()
+	if k.Ctx && r2.Done() && r2.Err == mangos.ErrProtoState {
+		// one receive at a time per context (REP, RESPONDENT): the second call is refused at once;
+		// the first keeps its own deadline
+		kit.Sleep(d/2 - time.Nanosecond)
+		kit.Quiesce()
+		if r1.Done() {
+			kit.Failf("recv-deadline-early:"+k.Name, "%s: Recv returned %s before its deadline (a second Recv was refused meanwhile)", k.Name, kit.ErrName(r1.Err))
+		}
+		kit.Sleep(time.Nanosecond)
+		kit.Quiesce()
+		if !r1.Done() || r1.Err != mangos.ErrRecvTimeout {
+			kit.Failf("recv-deadline-late:"+k.Name+":first-of-two", "%s: Recv is %v past its call: done=%v %s (a second Recv was refused meanwhile)", k.Name, d, r1.Done(), kit.ErrName(r1.Err))
+		}
+		kit.Observe("%s a refused", k.Name)
+		kit.Must("Close", func() { _ = x.S.Close() })
+		return
+	}
+	kit.Sleep(d/2 - time.Nanosecond)
+	kit.Quiesce()
+	if r1.Done() || r2.Done() {
+		kit.Failf("recv-deadline-early:"+k.Name, "%s: two Recv calls %v apart, deadline %v, nothing arrives: a call returned before its deadline (first: %v %s, second: %v %s)", k.Name, d/2, d, r1.Done(), kit.ErrName(r1.Err), r2.Done(), kit.ErrName(r2.Err))
+	}
+	kit.Sleep(time.Nanosecond)
+	kit.Quiesce()
+	if !r1.Done() || r1.Err != mangos.ErrRecvTimeout {
+		kit.Failf("recv-deadline-late:"+k.Name+":first-of-two", "%s: the first of two Recv calls is %v past its own call: done=%v %s; want the timeout error now (the second call, made %v later, must not move it)", k.Name, d, r1.Done(), kit.ErrName(r1.Err), d/2)
+	}
+	if r2.Done() {
+		kit.Failf("recv-deadline-early:"+k.Name+":second-of-two", "%s: the second Recv returned %s only %v after its call (deadline %v)", k.Name, kit.ErrName(r2.Err), d/2, d)
+	}
+	kit.Sleep(d / 2)
+	kit.Quiesce()
+	if !r2.Done() || r2.Err != mangos.ErrRecvTimeout || r2.T1-r2.T0 != d {
+		kit.Failf("recv-deadline-late:"+k.Name+":second-of-two", "%s: the second of two Recv calls: done=%v %s after %v (deadline %v)", k.Name, r2.Done(), kit.ErrName(r2.Err), r2.T1-r2.T0, d)
+	}
+	kit.Count("two-receivers-timed-out-each-at-its-own-deadline")
+	kit.Observe("%s a", k.Name)
+	kit.Must("Close", func() { _ = x.S.Close() })
 }
 
 // FailNoPeersOff: fail-no-peers is switched on, a peer comes and goes (a Send with nobody connected
